@@ -130,7 +130,7 @@ pub fn small_scope() -> Vec<Case> {
 }
 
 pub fn very_deep() -> BoxedStrategy<Case> {
-    crate::props::c01::very_deep().prop_map(|(fi, nd)| (fi, lex_of_nd(fi, &nd, &[]))).boxed()
+    crate::props::c01::very_deep_to(400).prop_map(|(fi, nd)| (fi, lex_of_nd(fi, &nd, &[]))).boxed()
 }
 
 pub fn streams() -> Vec<Box<dyn AnyStream>> {
